@@ -17,16 +17,16 @@ func TestC03(t *testing.T) { runArms(t, "C03", ruleC03) }
 func init() {
 	addArm("C03", "panos", func(rt *rapid.T, ev *evid.Collector) {
 		c := panCase("C03", panm.GenPair(rt, panm.GenOpts{}))
-		judge(rt, ev, oracleC03pan, c, func() any { return c })
+		judge(rt, ev, panF21(oracleC03pan), c, func() any { return c })
 	})
 	addArm("C08", "panos", func(rt *rapid.T, ev *evid.Collector) {
 		c := panCase("C08", panm.GenPair(rt, panm.GenOpts{}))
-		judge(rt, ev, oracleC08pan, c, func() any { return c })
+		judge(rt, ev, panF21(oracleC08pan), c, func() any { return c })
 	})
 	addArm("C10", "panos", func(rt *rapid.T, ev *evid.Collector) {
 		c := panCase("C10", panm.GenPair(rt, panm.GenOpts{}))
 		c.Params["cuts"] = drawCuts(rt)
-		judge(rt, ev, oracleC10pan, c, func() any { return c })
+		judge(rt, ev, panF21(oracleC10pan), c, func() any { return c })
 	})
 	addArm("C07", "panos", func(rt *rapid.T, ev *evid.Collector) {
 		p := panm.GenPair(rt, panm.GenOpts{Decorate: true})
